@@ -95,9 +95,16 @@ type PrometheusConfig struct {
 	Required    bool              `hcl:"required,optional" json:"required"`
 }
 
+// MaxConcurrency is the upper limit for the number of workers (per Prometheus server and for checks),
+// queues are allocated upfront with a few slots per worker.
+const MaxConcurrency = 10000
+
 func (pc PrometheusConfig) validate() error {
 	if pc.URI == "" {
 		return errors.New("prometheus URI cannot be empty")
+	}
+	if pc.Concurrency > MaxConcurrency {
+		return fmt.Errorf("prometheus concurrency cannot be > %d, got %d", MaxConcurrency, pc.Concurrency)
 	}
 	if _, err := url.Parse(pc.URI); err != nil {
 		return fmt.Errorf("prometheus URI %q is invalid: %w", pc.URI, err)
